@@ -18,8 +18,11 @@ pub fn knobs(rng: &mut Rng, lkm: bool) -> Knobs {
     Knobs { n_funcs: 1 + rng.below(6) as usize, max_blocks: 3 + rng.below(8) as usize, must_call: must, lkm }
 }
 
-/// Modules that have a section in the shipped lkm_config.json (the kernel-module subset).
-pub const LKM_MODULES: [&str; 9] = ["CWE134", "CWE190", "CWE215", "CWE252", "CWE416", "CWE467", "CWE476", "CWE676", "CWE789"];
+/// Checks that can run with the shipped lkm_config.json: the kernel-module subset plus the checks that need
+/// no configuration section (so that partial runs on kernel modules also name checks OUTSIDE the subset).
+pub const LKM_MODULES: [&str; 13] = [
+    "CWE119", "CWE134", "CWE190", "CWE215", "CWE252", "CWE416", "CWE467", "CWE476", "CWE560", "CWE676", "CWE782", "CWE789", "Memory",
+];
 
 /// k = 0 default run, 1 all checks, 2 single check, 3 random subset (with duplicate / empty names).
 /// For kernel-module inputs partial selections stay inside the modules the shipped lkm_config.json
